@@ -9,6 +9,7 @@ package c17
 //            committed state is taken through the SDK snapshot manager (what a node serves to its peers) and restored,
 //            chunk by chunk, into a fresh application on an empty database (what a joining node does); the new node has
 //            nothing but the snapshot — no process memory, no pruned-but-still-cached versions, no transient leftovers;
+//   restart-histq / histq  reads at OLDER heights (after a restart before every block / on a long-running node): histq_test.go;
 //   sim      between blocks the instance serves what a node serves besides block execution: CheckTx of the coming
 //            transactions (also of the block after, where they mostly fail), tx simulations, the injected messages on a
 //            discarded branch, gRPC queries — all of which may fill process memory but never consensus state.
@@ -295,8 +296,12 @@ func (n *node) dryInject(in detx.Inject, b detx.Block) {
 }
 
 // queries: a handful of gRPC queries against the committed state through the real query router.
-func (n *node) queries(rng *rand.Rand) {
-	if n.c.Height < 1 {
+func (n *node) queries(rng *rand.Rand) { n.queriesAt(n.c.Height, rng) }
+
+// queriesAt: the same queries against the state committed at height `at` (the latest one or an OLDER one: what an
+// explorer / indexer asks with x-cosmos-block-height).
+func (n *node) queriesAt(at int64, rng *rand.Rand) {
+	if n.c.Height < 1 || at < 1 || at > n.c.Height {
 		return
 	}
 	cdc := n.c.App.AppCodec()
@@ -305,7 +310,7 @@ func (n *node) queries(rng *rand.Rand) {
 		if err != nil {
 			return nil
 		}
-		res, err := n.c.App.Query(nil, &abci.RequestQuery{Path: path, Data: bz, Height: n.c.Height})
+		res, err := n.c.App.Query(nil, &abci.RequestQuery{Path: path, Data: bz, Height: at})
 		if err != nil || res == nil || res.Code != 0 {
 			n.stats["query:err"]++
 			if os.Getenv("VERIF_C17_DEBUG") != "" {
@@ -346,7 +351,7 @@ func (n *node) queries(rng *rand.Rand) {
 		}
 	}
 	// keeper-level reads on a query context, as the JSON-RPC / precompile view calls do
-	ctx, err := n.c.App.CreateQueryContext(n.c.Height, false)
+	ctx, err := n.c.App.CreateQueryContext(at, false)
 	if err == nil {
 		ctx, _ = ctx.CacheContext()
 		k := n.c.App.EthKeeper
@@ -462,10 +467,22 @@ func replayMode(h *detx.History, mode, backend, dir string, rseed int64) ([]stri
 					return lines, n.stats, err
 				}
 			}
+		case "restart-histq":
+			if err = n.restart(); err != nil {
+				return lines, n.stats, err
+			}
+			n.historical(rng)
+		case "histq":
+			if rng.Intn(2) == 0 {
+				n.historical(rng)
+			}
 		case "sim-restart":
 			if rng.Intn(4) == 0 {
 				if err = n.restart(); err != nil {
 					return lines, n.stats, err
+				}
+				if rng.Intn(2) == 0 {
+					n.historical(rng)
 				}
 			}
 			if rng.Intn(2) == 0 {
